@@ -2,6 +2,8 @@ import Generated.Facts
 import SlimModel.Slim
 import SlimModel.Scan
 import SlimModel.Index
+import SlimModel.Version
+import SlimModel.WireSchema
 /-
   SlimProps.Bridge — tie 1: every fact regenerated from /repo's working tree
   (lean/Generated/Facts.lean, written by harness/cmd/extract on every run) is equated with the
@@ -71,5 +73,25 @@ theorem unmarshalBufUses : Generated.unmarshalBufUses = ["bytes.NewReader(buf)",
 theorem newSlimTrieOptFlow : Generated.newSlimTrieOptFlow =
     ["opt := Opt{}", "opt = opts[0]", "normalizeOpt(&opt)", "ns, err := newSlim(keys, vals, &opt)",
      "newSlim(keys, vals, &opt)"] := rfl
+
+/-! ### versions (C07): the compatible set and the three dispatch predicates of `Unmarshal` -/
+theorem slimtrieVersion : Generated.slimtrieVersion = Version.slimtrieVersion := rfl
+theorem compatibleVersions : Generated.compatibleVersions = Version.compatibleSpecs := rfl
+theorem unmarshalCurrentSpec : Generated.unmarshalCurrentSpec = Version.currentLayoutSpecs := rfl
+theorem unmarshalBefore000512Spec : Generated.unmarshalBefore000512Spec = Version.before000512Specs := rfl
+theorem before000510Spec : Generated.before000510Spec = Version.before000510Specs := rfl
+
+/-! ### protobuf struct tags (C05, C06): field numbers, wire types, packedness -/
+def tagStr (msg : String) (t : Wire.FieldTag) : String :=
+  msg ++ "." ++ t.name ++ "=" ++ toString t.num ++ "," ++ t.wire ++ "," ++ (if t.packedRep then "rep,packed" else "opt")
+
+def modelTags : List String :=
+  Wire.array32Schema.map (tagStr "Array32") ++ Wire.bitmapSchema.map (tagStr "Bitmap") ++
+  Wire.bitsSchema.map (tagStr "Bits") ++ Wire.slimSchema.map (tagStr "Slim") ++
+  Wire.vlenArraySchema.map (tagStr "VLenArray")
+
+/-- every tag in the Go source is a tag of the model's schema tables and vice versa -/
+theorem protoTags : (∀ t ∈ Generated.protoTags, t ∈ modelTags) ∧ (∀ t ∈ modelTags, t ∈ Generated.protoTags) := by
+  decide
 
 end Bridge
